@@ -328,6 +328,25 @@ type termer struct {
 	depth    int
 	seen     map[ssa.Value]bool
 	paramIdx bool // render parameters positionally ($0, $1…) to compare sibling functions
+	follow   bool // see through locals that have exactly one store even when their address escapes (formula extraction)
+}
+
+func termF(v ssa.Value) string { return (&termer{seen: map[ssa.Value]bool{}, follow: true}).t(v) }
+
+// onlyStore: the unique Store whose address is a (regardless of other referrers).
+func onlyStore(a *ssa.Alloc) *ssa.Store {
+	var st *ssa.Store
+	if refs := a.Referrers(); refs != nil {
+		for _, r := range *refs {
+			if x, ok := r.(*ssa.Store); ok && x.Addr == ssa.Value(a) {
+				if st != nil {
+					return nil
+				}
+				st = x
+			}
+		}
+	}
+	return st
 }
 
 func termP(v ssa.Value) string { return (&termer{seen: map[ssa.Value]bool{}, paramIdx: true}).t(v) }
@@ -404,6 +423,14 @@ func (tm *termer) t(v ssa.Value) string {
 			s := "&{" + tm.t(st.Val) + "}"
 			delete(tm.seen, x)
 			return s
+		}
+		if tm.follow && !tm.seen[x] {
+			if st := onlyStore(x); st != nil {
+				tm.seen[x] = true
+				s := "&{" + tm.t(st.Val) + "}"
+				delete(tm.seen, x)
+				return s
+			}
 		}
 		if x.Comment != "" {
 			return "&local:" + x.Comment
